@@ -14,7 +14,7 @@ def run(chk, tier, seed, replay=None):
                 'or more bad tests (failure, error, unexpected success, failing '
                 'subtests, tearDown/cleanup error, layer setUp failure) at '
                 'first/middle/last positions, all run with -x, with --repeat 1..3 '
-                'and --shuffle; distinct = distinct (graph, outcome facts, '
+                'and --shuffle, in-process and inside layer subprocesses (-j N, resume); distinct = distinct (graph, outcome facts, '
                 'options, trace length)')
     chk.assumptions += ['"sequential run" is read as the in-process parent '
                         '(children resumed after NotImplementedError are fresh runs)']
@@ -52,6 +52,21 @@ def run(chk, tier, seed, replay=None):
               'faults': (0.15, 0.0, 0.0)}
     cases = corecheck.gen_cases(rng, graphs, n1, prof_a, 'a')
     cases += corecheck.gen_cases(rng, graphs, n2, prof_b, 'b')
+    # the same inside layer subprocesses: each child is a process of its own in
+    # which nothing may start after its first bad outcome
+    ccases = corecheck.gen_cases(rng, graphs, 40 if tier == 'quick' else 500, prof_b, 'c')
+    for c in ccases:
+        if rng.random() < 0.6:
+            c['o']['j'] = rng.choice([2, 3])
+        else:
+            for l in c['world']['layers'].values():
+                if 'tearDown' in l.get('hooks', ()) and l.get('tearDown', 'ok') == 'ok':
+                    l['tearDown'] = 'notimpl'
+                    break
+            else:
+                c['o']['j'] = 2
+        c['mode'] = 'cli'
+    cases += ccases
     for c in cases[:3]:
         chk.sample({'world': c['world'], 'options': c['o'], 'mode': c['mode']})
     corecheck.run_cases(chk, FAM, cases)
